@@ -10,8 +10,10 @@ import snowing_runs as sr
 
 
 def table(S):
+    """rows of the results table with the values taken BY COLUMN NAME (sorted names), so that a mislabelled column is a difference"""
     df = S.results
-    return [[None if v is None else float(v) for v in row] for row in df.to_numpy().tolist()], list(df.index)
+    cols = sorted(df.columns)
+    return [[None if v is None else float(v) for v in row] for row in df[cols].to_numpy().tolist()], list(df.index)
 
 
 def same(a, b):
@@ -47,9 +49,8 @@ def check(rep, tier):
             singles = []
             for i in range(Nrep):
                 S1 = sr.make(**kw)
-                with impl.quiet():
-                    r = {"homogeneous": S1._run_0D, "spatial_1D": S1._run_1D, "spatial_2D": S1._run_2D}[dim](seed=i)
-                singles.append([None if v is None else float(v) for v in r])
+                sr.run(S1, seed=i)                 # one repetition with seed i on a fresh object; its values are read by name
+                singles.append(table(S1)[0][0])
             S0 = sr.make(**kw); sr.run(S0)
             rep0, _ = table(S0)
             for how, ncpu in modes:
